@@ -1,5 +1,5 @@
 (* C10 - ArrayBuilder: each build returns exactly the rows pushed since the last one. *)
-From Verif Require Import Take Take_proofs Builder_proofs Refine_proofs Wf_proofs DictBuilder DictBuilder_proofs.
+From Verif Require Import Take Take_proofs Builder_proofs Refine_proofs Wf_proofs DictBuilder DictBuilder_proofs UnionBuilder UnionBuilder_proofs.
 
 (* every successful push adds exactly one row (to every buffer, at every nesting level) *)
 Theorem C10_push_adds_one_row : forall v b b', WfB b -> push v b = Ok b' -> WfB b' /\ rows b' = S (rows b).
@@ -75,6 +75,42 @@ Example C10_dictionary_example :
         ADict (APrim (PInt I8) (Some {| bm_off := 0; bm_data := [1%N] |}) [0]%Z) (ABytes BUtf8 None [0; 1]%Z (b "y"))].
 Proof. vm_compute. reflexivity. Qed.
 
+(* ---- per-batch state: the union builder (type ids, offsets, one row counter per variant) ---- *)
+(* a pushed variant is appended as (type id, denoted payload) - unit, newtype, tuple and struct variants -
+   and no earlier row changes: every offset still points at the row of its variant *)
+Theorem C10_union_push : forall nm ufs u u' v lvs, UInv ufs u -> ucontent u = Some lvs -> union_push v u = Ok u' ->
+  exists lv, interp (ufield nm ufs) v = IOk lv /\ ucontent u' = Some (lvs ++ [lv]) /\ UInv ufs u'.
+Proof. exact union_push_sound. Qed.
+
+(* ucontent is the logical content of the emitted dense union array *)
+Theorem C10_union_content_is_decode : forall u, decode (union_into_array u) = ucontent u.
+Proof. exact decode_union_into. Qed.
+
+(* a build resets the counters together with the children *)
+Theorem C10_union_take_is_fresh : forall fields0 u, resets_to fields0 u -> union_reset u = union_new fields0.
+Proof. exact union_reset_fresh. Qed.
+
+(* any history over a union column: the k-th build is the one-shot conversion of the variants pushed since
+   the (k-1)-th build; offsets restart from zero for every variant *)
+Theorem C10_union_history : forall fields0, resets_to fields0 (union_new fields0) ->
+  forall ops cur u outs, union_push_all (union_new fields0) cur = Ok u -> union_history u ops = Ok outs ->
+  Forall2 (fun batch out => union_one_shot (union_new fields0) batch = Ok out) (union_batches cur ops) outs.
+Proof. exact union_history_batches. Qed.
+
+Theorem C10_union_builder_is_fresh : forall fs u0, union_of fs = Some u0 -> resets_to (u_fields u0) (union_new (u_fields u0)).
+Proof. exact union_of_fresh. Qed.
+
+Example C10_union_example :
+  match union_of [mkField (b "N") DNull true; mkField (b "I") (DPrim (PInt I16)) false] with
+  | Some u0 =>
+    union_history u0 [UPush (VNewtypeVariant 1 (b "I") (VInt I16 7)); UPush (VUnitVariant 0 (b "N")); UPush (VNewtypeVariant 1 (b "I") (VInt I16 8)); UBuild;
+                      UPush (VNewtypeVariant 1 (b "I") (VInt I16 9)); UBuild]
+    = Ok [AUnion [1; 0; 1]%Z [0; 0; 1]%Z [(0%Z, {| m_name := b "N"; m_nullable := true |}, ANull 1); (1%Z, {| m_name := b "I"; m_nullable := false |}, APrim (PInt I16) None [7; 8]%Z)];
+          AUnion [1]%Z [0]%Z [(0%Z, {| m_name := b "N"; m_nullable := true |}, ANull 0); (1%Z, {| m_name := b "I"; m_nullable := false |}, APrim (PInt I16) None [9]%Z)]]
+  | None => False
+  end.
+Proof. vm_compute. reflexivity. Qed.
+
 Example C10_example :
   match build (mkField [] (DStruct [mkField (b "a") (DBytes BUtf8) true]) false) with
   | Some b0 =>
@@ -87,6 +123,8 @@ Example C10_example :
 Proof. vm_compute. reflexivity. Qed.
 
 Print Assumptions C10_take_is_fresh.
+Print Assumptions C10_union_push.
+Print Assumptions C10_union_history.
 Print Assumptions C10_dictionary_history.
 Print Assumptions C10_dictionary_well_formed.
 Print Assumptions C10_history_content.
